@@ -264,10 +264,11 @@ def table_layout(context, table, bottom_space, skip_stack, containing_block,
             ending_cells = ending_cells_by_row.pop(0)
             if ending_cells:  # in this row
                 if row.height == 'auto':
-                    row_bottom_y = max(
+                    # Cells spanning several rows can end above this row.
+                    row_bottom_y = max(row.position_y, *(
                         cell.position_y + cell.border_height()
-                        for cell in ending_cells)
-                    row.height = max(row_bottom_y - row.position_y, 0)
+                        for cell in ending_cells))
+                    row.height = row_bottom_y - row.position_y
                 else:
                     row.height = max(row.height, max(
                         row_cell.border_height() for row_cell in ending_cells))
